@@ -64,6 +64,17 @@ type admSess struct {
 	cust    logic.ICustomizePubSessionContext
 	gone    bool
 	refused bool
+	mates   *[]*admSess // every session created on the same RTSP command connection (shared)
+}
+
+// the connection of s has ended: every session created on it is over for the harness
+func (s *admSess) connDone() {
+	s.gone = true
+	if s.mates != nil {
+		for _, m := range *s.mates {
+			m.gone = true
+		}
+	}
 }
 
 type admAttempt struct {
@@ -666,6 +677,7 @@ func (c *admCase) doOp(op string) string {
 			q = f[3] + "=1"
 		}
 		s := &admSess{name: name, kind: f[0], stream: stream(1), conn: newAdmConn("10.0.0.2:" + f[2])}
+		s.mates = &[]*admSess{s}
 		c.sess[name] = s
 		c.cur = s
 		c.startShell(s, true)
@@ -685,6 +697,39 @@ func (c *admCase) doOp(op string) string {
 			return "r"
 		}
 		return r
+	case "ap2", "ds2": // a further ANNOUNCE / DESCRIBE on the command connection of session N: ap2.<stream>.<N>.<new sid>[.deny]
+		first := c.sess["c"+f[2]]
+		name := "c" + f[3]
+		if _, dup := c.sess[name]; dup {
+			return "x"
+		}
+		if first == nil || first.mates == nil || first.gone || first.conn.isClosed() {
+			return "x"
+		}
+		q := ""
+		if len(f) > 4 {
+			q = f[4] + "=1"
+		}
+		s := &admSess{name: name, kind: f[0][:2], stream: stream(1), conn: first.conn, done: first.done, mates: first.mates}
+		*s.mates = append(*s.mates, s)
+		c.sess[name] = s
+		c.cur = s
+		if f[0] == "ap2" {
+			s.conn.feed(rtspRequest("ANNOUNCE", stream(1), q, 3, admSdp))
+		} else {
+			s.conn.feed(rtspRequest("DESCRIBE", stream(1), q, 3, ""))
+		}
+		r := s.conn.waitIdle(s.done)
+		c.cur = nil
+		switch r {
+		case "idle":
+			return "a"
+		case "done":
+			s.refused = true
+			s.connDone()
+			return "r"
+		}
+		return r
 	case "pl": // rtsp play of a described session: pl.<sid>
 		s := c.sess["c"+f[1]]
 		if s == nil || s.kind != "ds" || s.gone || s.conn.isClosed() {
@@ -696,7 +741,7 @@ func (c *admCase) doOp(op string) string {
 		case "idle":
 			return "a"
 		case "done":
-			s.gone = true
+			s.connDone()
 			return "r"
 		}
 		return r
@@ -781,7 +826,7 @@ func (c *admCase) doOp(op string) string {
 		if s == nil || s.gone {
 			return "x"
 		}
-		s.gone = true
+		s.connDone()
 		switch s.kind {
 		case "rp", "rs", "ap", "ds":
 			s.conn.release()
